@@ -17,6 +17,11 @@ def specCmp (a b : Rule) : Ordering :=
   if a.rank > b.rank then .lt else if a.rank < b.rank then .gt else cmpBytes b.id a.id
 
 def handle (j : Json) : Except String Json := do
+  -- marker / variable family: substitution is not modelled here (C10); the harness oracles are on the
+  -- implementation alone, the observation is just the case kind and the number of rules
+  if (Drv.str? j "kind").toOption == some "markers" then
+    let n := (← Drv.arr? j "rules").size
+    return Json.mkObj [("m", Json.mkObj [("kind", toJson "markers"), ("rules", toJson n)])]
   let rules ← parseRules j
   let q ← parseReq j
   let pairs ← (← Drv.arr? j "pairs").toList.mapM fun p =>
